@@ -24,7 +24,7 @@ from checks.c08 import check_map
 
 PROP = 'C07'
 LEVEL = 'model_checking'
-RULE = ('circuits (T5 dangling, T4 deep, T2 slice, T3 small, wide levels) x {c_reuse} x {strip_forks}; per circuit/config/level: all permutations of the level\'s ops (n! up to 6 ops, '
+RULE = ('circuits (T5 dangling, T4 deep, T2 slice, T3 small, wide levels, bench-parsed netlists whose output ports are read inside the circuit) x {c_reuse} x {strip_forks}; per circuit/config/level: all permutations of the level\'s ops (n! up to 6 ops, '
         'generating set above) through LogicSim m=2/m=8 and WaveSim CPU code; all orders of the effective (lane, op) threads of each GPU launch (n! up to 6 threads, structured orders above); '
         'read/write sets of every thread from a logging array; static partition check; states = distinct (circuit, config, level) memory images, transitions = schedules executed on the real code')
 ASSUMPTIONS = ['compositional argument: if the memory image after level i is the same for every order of level i, starting from the unique image after level i-1, every combination of per-level orders gives the same result',
@@ -40,6 +40,7 @@ def tasks(tier, seed):
     for sl in range(4): t.append(('fam', 't4', sl, 4, tier, seed))
     for sl in range(8): t.append(('fam', 't2', sl, 8, tier, seed))
     t.append(('fam', 'wide', 0, 1, tier, seed))
+    for sl in range(4): t.append(('bench', 'cut', sl, 4, tier, seed))
     for sk, gk in F.t3_shards(1, 1, F.T3_KINDS_QUICK): t.append(('fam', ('t3', 1, sk, gk), 0, 1, tier, seed))
     if tier == 'thorough':
         for sk, gk in F.t3_shards(0, 2, F.T3_KINDS_QUICK): t.append(('fam', ('t3', 2, sk, gk), 0, 1, tier, seed))
@@ -65,6 +66,19 @@ def circuits(task):
     return F.take_slice(g, nsl, sl)
 
 
+def bench_cut_family():
+    """bench netlists over 2 inputs whose first gate (and possibly second) is an output that is read by later gates"""
+    kinds = ['and', 'or', 'xor', 'nand']
+    for k1 in kinds:
+        for k2 in kinds:
+            for o2 in ('a', 'b', 'x'):
+                yield f'input(a,b) output(x,y) x={k1}(a,b) y={k2}(x,{o2})'
+                for k3 in kinds[:2]:
+                    for ops3 in (('y', 'x'), ('y', 'a'), ('x', 'b'), ('y', 'y')):
+                        for outs in ('x,y,z', 'z,x', 'y,z'):
+                            yield f'input(a,b) output({outs}) x={k1}(a,b) y={k2}(x,{o2}) z={k3}({ops3[0]},{ops3[1]})'
+
+
 def level_perms(k):
     if k <= 1: return []
     if k <= 6: return [p for p in itertools.permutations(range(k)) if p != tuple(range(k))]
@@ -78,6 +92,17 @@ def level_perms(k):
 def run_task(task):
     res = common.Result()
     tier = task[4]
+    if task[0] == 'bench':
+        g = bench_cut_family()
+        if tier == 'quick': g = F.take_slice(g, 6, task[5] % 6)
+        for idx, text in enumerate(F.take_slice(g, task[3], task[2])):
+            for reuse, strip in itertools.product((False, True), repeat=2):
+                case = {'nl': text, 'bench': True, 'style': 0, 'reuse': reuse, 'strip': strip, 'tier': tier}
+                try:
+                    check_case(res, case)
+                except Exception as ex:
+                    res.violation(f'C07/{common.h64(case["nl"]):016x}/exception-{type(ex).__name__}', case, traceback.format_exc()[-1500:])
+        return res
     for idx, nl in enumerate(circuits(task)):
         si = idx % len(STYLES)
         for reuse, strip in itertools.product((False, True), repeat=2):
@@ -132,13 +157,25 @@ def check_case(res, case):
     from kyupy import wave_sim
     from kyupy.logic_sim import LogicSim
     from kyupy.sim import SimOps
-    nl = NL.from_json(case['nl'])
     reuse, strip, tier = case['reuse'], case['strip'], case.get('tier', 'quick')
-    b = build(nl, STYLES[case['style']])
-    c = b.circuit
     key = f'C07/{common.h64(case["nl"]):016x}/s{case["style"]}/{int(reuse)}{int(strip)}'
-    ipos, opos, spos = b.s_pos()
-    nv = nl.n_in + len(nl.states)
+    if case.get('bench'):
+        # bench text parsed by the library: output signals that are read inside the circuit as well become port forks with a
+        # driver AND readers; the simulators cut the net there (the port's assigned value feeds the readers), so every port or
+        # state element with readers is a source of the schedule
+        from kyupy import bench
+        nl = case['nl']
+        c = bench.parse(nl)
+        ipos = [i for i, x in enumerate(c.s_nodes) if len(x.outs) > 0]
+        opos, spos = [i for i, x in enumerate(c.s_nodes) if len(x.ins) > 0], []
+        nv = len(ipos)
+        res.count('bench_cut_port_cases')
+    else:
+        nl = NL.from_json(case['nl'])
+        b = build(nl, STYLES[case['style']])
+        c = b.circuit
+        ipos, opos, spos = b.s_pos()
+        nv = nl.n_in + len(nl.states)
     nlines = len(c.lines)
 
     # ---- (i) static partition check on the published schedule, wave layouts and logic layout
@@ -344,7 +381,7 @@ def check_case(res, case):
 
 
 def finish(agg, tier):
-    need = ['sim_block_launches', 'levels_with_2plus_ops', 'threads_logged', 'gpu_launches', 'cases_with_reuse', 'partition_checks']
+    need = ['bench_cut_port_cases', 'sim_block_launches', 'levels_with_2plus_ops', 'threads_logged', 'gpu_launches', 'cases_with_reuse', 'partition_checks']
     missing = [k for k in need if not agg.counters.get(k)]
     if missing: raise common.HarnessError(f'vacuity guard: {missing} zero')
     return {}
